@@ -212,7 +212,7 @@ type c17Tx struct {
 	grantLine int
 	grantL    int
 	lastCallL int
-	lastOkL   int // noted time of the last data call on it that was served (it certainly counted as activity)
+	lastOkL   int      // noted time of the last data call on it that was served (it certainly counted as activity)
 	brackets  [][2]int // [note, end] of the Begin and of every later call on it (real ms)
 	writes    [][2]int // acknowledged puts (k,v) / deletes (k,-1) in order
 	finished  string   // "" | commit | rollback | fail
@@ -233,11 +233,11 @@ type c17Client struct {
 }
 
 type c17Env struct {
-	svc, peer         bool
-	wiring            string
+	svc, peer          bool
+	wiring             string
 	idle, ttlro, ttlrw int
-	bt                int
-	scale             int
+	bt                 int
+	scale              int
 
 	dir    string
 	e      *engine.EngineFacade
@@ -258,7 +258,7 @@ type c17Env struct {
 	inners []*c17Inner
 
 	start   time.Time
-	lnow    int // time noted for the current line (real ms since start)
+	lnow    int  // time noted for the current line (real ms since start)
 	slipped bool // ambiguous run
 	why     string
 	stuck   bool
@@ -291,7 +291,7 @@ func (v *c17Env) ambiguous(f string, a ...interface{}) {
 	}
 }
 
-func (v *c17Env) out(s string)                 { v.lines = append(v.lines, s) }
+func (v *c17Env) out(s string)                    { v.lines = append(v.lines, s) }
 func (v *c17Env) fail(f string, a ...interface{}) { v.fails = append(v.fails, fmt.Sprintf(f, a...)) }
 
 func c17Key(k int) []byte {
@@ -641,9 +641,8 @@ func (v *c17Env) completed(cl *c17Call) {
 			v.held = append(v.held, c17Done{cl.c, cls, cl.dlHi})
 		}
 	}
-	if cl.cancel != nil && cl.err == nil {
-		// keep the context alive until the end of the case: cancelling it is not part of the script
-	}
+	// the context of a granted Begin stays alive until the end of the case (stop cancels what is
+	// still outstanding): cancelling it is not part of the script
 }
 
 // a time-out is reported with the first line whose noted time is not before the deadline (that is
@@ -1150,10 +1149,8 @@ func (v *c17Env) shutdown() (res string) {
 	}()
 	ctx, cancel := context.WithTimeout(context.Background(), 2*time.Second)
 	defer cancel()
-	first := !v.shut
 	v.shut = true
 	v.reg.GracefulShutdown(ctx)
-	_ = first
 	return "ok"
 }
 
